@@ -244,6 +244,12 @@ fn build_simple_type_evaluator(feel_type: FeelType, av_evaluator: Option<Evaluat
 
 ///
 fn build_referenced_type_evaluator(ref_type: String, av_evaluator: Option<Evaluator>) -> Result<ItemDefinitionEvaluatorFn> {
+  // every value conforms to the type `Any`, only the allowed values restrict it
+  if ref_type.trim() == "Any" {
+    return Ok(Box::new(move |value: &Value, _: &ItemDefinitionEvaluator| {
+      check_allowed_values(value.clone(), av_evaluator.as_ref())
+    }));
+  }
   Ok(Box::new(move |value: &Value, evaluators: &ItemDefinitionEvaluator| {
     if let Some(evaluated_value) = evaluators.eval(&ref_type, value) {
       // the allowed values of this item definition restrict the referenced type
@@ -443,6 +449,16 @@ fn build_collection_of_simple_type_evaluator(feel_type: FeelType, av_evaluator: 
 
 ///
 fn build_collection_of_referenced_type_evaluator(type_ref: String, av_evaluator: Option<Evaluator>) -> Result<ItemDefinitionEvaluatorFn> {
+  // every value conforms to the type `Any`, so every list is a collection of `Any`
+  if type_ref.trim() == "Any" {
+    return Ok(Box::new(move |value: &Value, _: &ItemDefinitionEvaluator| {
+      if let Value::List(_) = value {
+        check_allowed_values(value.clone(), av_evaluator.as_ref())
+      } else {
+        value_null!("expected list, actual type is '{}' in value '{}'", value.type_of(), value)
+      }
+    }));
+  }
   Ok(Box::new(move |value: &Value, evaluators: &ItemDefinitionEvaluator| {
     if let Value::List(values) = value {
       let mut evaluated_values = Values::default();
